@@ -85,6 +85,7 @@ pub struct ARet {
     pub c: String,
     pub md: AMd,
     pub env: String,
+    pub ty: ATy,
 }
 #[derive(Serialize, Deserialize, Clone, Debug, PartialEq, Eq)]
 pub struct ACall {
@@ -129,7 +130,7 @@ pub fn no_dec() -> ADec {
     ADec { k: "unused".into(), c: "-".into(), md: no_md() }
 }
 pub fn ret(ok: bool, kind: &str, cause: &str, c: &str, md: AMd, env: &str) -> ARet {
-    ARet { ok, kind: kind.into(), cause: cause.into(), c: c.into(), md, env: env.into() }
+    ARet { ok, kind: kind.into(), cause: cause.into(), c: c.into(), md, env: env.into(), ty: no_ty() }
 }
 pub fn ret_err_buildpack() -> ARet {
     ret(false, "ErrBuildpack", "-", "-", no_md(), "none")
@@ -824,6 +825,23 @@ impl<M: MdType> ScriptLayer<'_, M> {
     }
 }
 
+/// A Layer that overrides nothing but the two required methods: used to run the library's own
+/// default `existing_layer_strategy`, `update` and `migrate_incompatible_metadata`.
+struct PlainLayer<M> {
+    types: LayerTypes,
+    _m: std::marker::PhantomData<M>,
+}
+impl<M: MdType> Layer for PlainLayer<M> {
+    type Buildpack = TB;
+    type Metadata = M;
+    fn types(&self) -> LayerTypes {
+        self.types
+    }
+    fn create(&mut self, _c: &BuildContext<TB>, _p: &Path) -> Result<LayerResult<M>, TErr> {
+        Err(TErr("PlainLayer::create must not be reached".into()))
+    }
+}
+
 impl<M: MdType> Layer for ScriptLayer<'_, M> {
     type Buildpack = TB;
     type Metadata = M;
@@ -847,6 +865,7 @@ impl<M: MdType> Layer for ScriptLayer<'_, M> {
         let _p = Pause::new();
         self.log.borrow_mut().push(call("strategy", d.content_metadata.metadata.project(self.u), &self.u.env_token_of_layer_env(&d.env), false));
         match self.o.strat.k.as_str() {
+            "Default" => PlainLayer::<M> { types: self.types(), _m: std::marker::PhantomData }.existing_layer_strategy(_ctx, d),
             "Keep" => Ok(ExistingLayerStrategy::Keep),
             "Update" => Ok(ExistingLayerStrategy::Update),
             "Recreate" => Ok(ExistingLayerStrategy::Recreate),
@@ -861,6 +880,9 @@ impl<M: MdType> Layer for ScriptLayer<'_, M> {
     fn update(&mut self, _ctx: &BuildContext<TB>, d: &LayerData<M>) -> Result<LayerResult<M>, TErr> {
         let _p = Pause::new();
         self.log.borrow_mut().push(call("update", d.content_metadata.metadata.project(self.u), &self.u.env_token_of_layer_env(&d.env), false));
+        if self.o.ures.k == "Default" {
+            return PlainLayer::<M> { types: self.types(), _m: std::marker::PhantomData }.update(_ctx, d);
+        }
         self.result(&d.path, &self.o.ures, "update")
     }
 
@@ -868,6 +890,7 @@ impl<M: MdType> Layer for ScriptLayer<'_, M> {
         let _p = Pause::new();
         self.log.borrow_mut().push(call("migrate", md.project(self.u), "none", false));
         match self.o.mig.k.as_str() {
+            "Default" => PlainLayer::<M> { types: self.types(), _m: std::marker::PhantomData }.migrate_incompatible_metadata(_ctx, md),
             "Recreate" => Ok(MetadataMigration::RecreateLayer),
             "Replace" => Ok(MetadataMigration::ReplaceMetadata(M::make(self.u, &self.o.mig.md))),
             "Err" => Err(TErr("migrate".into())),
@@ -884,6 +907,7 @@ fn run_trait<M: MdType>(u: &Universe, ctx: &BuildContext<TB>, name: &LayerName, 
     match ctx.handle_layer(name.clone(), layer) {
         Ok(d) => {
             let mut r = ret(true, "Data", "-", "-", d.content_metadata.metadata.project(u), &u.env_token_of_layer_env(&d.env));
+            r.ty = d.content_metadata.types.map_or_else(no_ty, |t| ATy { set: true, build: t.build, launch: t.launch, cache: t.cache });
             if d.path != ctx.layers_dir.join(&o.n) || d.name != *name {
                 r.kind = "Data with wrong path or name".into();
             }
